@@ -80,6 +80,22 @@ CHECKS = {
                 text="TECMP frames from an independent builder: CAN/CAN-FD data length 0..64 x arbitration ids x CRC trailers, LIN x all 256 pids, capture-module status x serials x version bytes, bus status with 0..40 entries, each kind with inner lengths inconsistent with the buffer, and all 256 message types x data types x payload lengths x length bytes (thorough: all 65536 data types); decoded packets are compared with an independent conversion, unsupported/inconsistent messages must yield nothing.",
                 note="CAN CRC values, frames with bytes after the declared payload, partial bus-status entries and status frames with data type FF00 are outside what the property fixes and are only checked for memory safety (C02).",
                 technique="bounded exhaustive enumeration of inputs against an independent reference conversion"),
+    "C11": dict(level="model_checking", design="4/C11",
+                text="Table-driven: 23 classes, ~230 setter/getter pairs; for every field ALL values (<= 16 bits) or single bits + byte lanes + extremes (wider), from default / all-zero / all-ones / counting prior object states (payload classes also with data bytes): after set, get returns the value, every non-overlapping field's getter is unchanged and raw bytes are unchanged outside the bits an independent layout table assigns to the field; booleans additionally through set/clear sequences.",
+                note="Wide fields are covered bit-lane-wise, which decides bit-sliced accessors (byte swaps, shifts, masks); the overlap relation (legitimate aliases) is derived from the independent layout table.",
+                technique="bounded exhaustive enumeration class x field x value x prior state on the real objects"),
+    "C12": dict(level="model_checking", design="4/C12",
+                text="Same table, independent columns (offset, width, bit position written from the protocol layouts): API writes into default objects must produce the hand-laid-out big-endian image, hand-laid-out images must be read back by the getters from zero/ones/counting backgrounds, reserved bits are zero in default objects, header sizes are the standard ones; Packet serialisers are compared with hand-laid-out images.",
+                note="The order of the two TECMP temperature bytes could not be cross-checked and is listed as an assumption in the evidence.",
+                technique="bounded exhaustive enumeration class x field x value against an independent layout table"),
+    "C13": dict(level="model_checking", design="4/C13",
+                text="Every builder (CAN/CAN-FD/LIN all lengths 0..255, Ethernet/analog boundary lengths to 65529, capture-module 5^4 string combinations x vendor lengths, interface stream-id counts x vendor lengths) after each kind of prior contents; checked: getters, preserved header fields, independent wire image incl. NUL termination and even padding, DLC table, own validity check, real Decoder, raw bytes equal to those of a fresh object with the same final content.",
+                note="DLC is only constrained for representable lengths.",
+                technique="bounded exhaustive enumeration of builder inputs x prior object contents with independent layout oracle and fresh-object differential"),
+    "C14": dict(level="model_checking", design="4/C14",
+                text="All ordered (source, target) pairs of a 16-packet pool (payload-less, zero-length payloads, equal-looking, typed, decoder-produced) x copy/move construction and assignment, self assignments, all two-assignment sequences, equality laws on all pairs; the same for 9 Payload and 6 TECMP::Payload objects; observation through all getters under ASan in forked workers.",
+                note="Equality must agree with field-by-field comparison only for non-empty payloads (as the property states).",
+                technique="exhaustive enumeration of object pairs x value operations (2-step histories) on the real classes"),
 }
 
 PENDING_REASON = "check under construction (see DESIGN.md section 4); will be claimed once its engine is committed"
